@@ -37,6 +37,7 @@ func init() {
 		} else if k.Kind == "sinks" {
 			c16Sinks(c, k.Xml)
 			c16RawOnFailingSink(c, k.Xml)
+			c16FullDevice(c, k.Xml)
 		} else {
 			c16Explore(c, src, 2, true)
 		}
@@ -723,6 +724,40 @@ func c16RawOnFailingSink(c *Ctx, xmlDoc string) {
 	}
 }
 
+// c16FullDevice: the four file forms on a device that accepts no byte (/dev/full, where the system has one): a
+// write that failed is an error of the call, like the sink errors of the Writer forms.
+func c16FullDevice(c *Ctx, xmlDoc string) {
+	if _, err := os.Stat("/dev/full"); err != nil {
+		c.Count("full_device_cases_skipped_no_dev_full", 1)
+		return
+	}
+	m, err := mxj.NewMapXml([]byte(xmlDoc))
+	if err != nil {
+		return
+	}
+	cas := func() interface{} { return c16Case{Kind: "sinks", Xml: xmlDoc} }
+	ms := mxj.Maps{m, m}
+	forms := map[string]func() error{
+		"Maps.XmlFile":        func() error { return ms.XmlFile("/dev/full") },
+		"Maps.XmlFileIndent":  func() error { return ms.XmlFileIndent("/dev/full", "", " ") },
+		"Maps.JsonFile":       func() error { return ms.JsonFile("/dev/full") },
+		"Maps.JsonFileIndent": func() error { return ms.JsonFileIndent("/dev/full", "", " ") },
+	}
+	for _, name := range []string{"Maps.XmlFile", "Maps.XmlFileIndent", "Maps.JsonFile", "Maps.JsonFileIndent"} {
+		var werr error
+		st, pan := protect(func() { werr = forms[name]() })
+		c.S.Transitions++
+		c.S.Schedules++
+		if pan {
+			c.Violate(name, "panic", "sinks", cas, nil, st)
+			continue
+		}
+		if werr == nil {
+			c.Violate(name, "sink-error-returned", "sinks", cas, nil, fmt.Sprintf("doc=%q written to /dev/full (every write fails with ENOSPC): the call returned a nil error", xmlDoc))
+		}
+	}
+}
+
 func c16Run(c *Ctx) {
 	mustBeDefault(c)
 	mxj.XMLEscapeChars(true)
@@ -778,6 +813,7 @@ func c16Run(c *Ctx) {
 		if i%7 == 0 {
 			c16Sinks(c, d)
 			c16RawOnFailingSink(c, d)
+			c16FullDevice(c, d)
 		}
 	}
 	g := newGen(GenP{Keys: []string{"a", "b", "-x", "#text"}, MaxList: 3, MaxKeys: 3, EmptyList: true, EmptyMap: true, ListInList: false, Leaves: []interface{}{"s", "<&>", 1.5, nullLeaf{}}})
